@@ -73,6 +73,7 @@ func ValidateGenesis(data *GenesisState, ac address.Codec) error {
 
 func validateGenesisStateValidators(validators []Validator) error {
 	addrMap := make(map[string]bool, len(validators))
+	operatorMap := make(map[string]bool, len(validators))
 
 	for i := 0; i < len(validators); i++ {
 		val := validators[i]
@@ -80,6 +81,11 @@ func validateGenesisStateValidators(validators []Validator) error {
 		if err != nil {
 			return err
 		}
+
+		if _, ok := operatorMap[val.OperatorAddress]; ok {
+			return fmt.Errorf("duplicate validator operator in genesis state: moniker %v, operator %v", val.Moniker, val.OperatorAddress)
+		}
+		operatorMap[val.OperatorAddress] = true
 
 		strKey := string(consPk.Bytes())
 
